@@ -430,6 +430,11 @@ func VerifC12Step() {
 	r := vBuild(m)
 	st := r.st
 	vAssert(vInv(st), "pre-invariant")
+	if vParam("WARM", 0) == 1 {
+		// every query once before the call as well: whatever an implementation memoises
+		// on a query (snapshots, lookups) is then populated when the mutation happens
+		vAgree(st, m, nil)
+	}
 	op := vLen("op", 0, 13)
 	a, b := vArgName("argA"), ""
 	extra := []string{a}
@@ -472,7 +477,7 @@ func VerifC12Step() {
 			vAssert(got != nil && got.Nick == a && len(got.Channels) == 0, "DelNick-result")
 		}
 	case 3: // NickInfo
-		id, host, real := vSym1("newident"), vSym1("newhost"), vSym1("newreal")
+		id, host, real := vArgName("newident"), vArgName("newhost"), vArgName("newreal") // 0..1 bytes each: empty strings are values too
 		got := st.NickInfo(a, id, host, real)
 		i := m.nick(a)
 		if i < 0 {
